@@ -83,6 +83,8 @@ def gen_c13(rng, ticking: bool = False) -> Dict[str, Any]:
         if rng.random() < 0.25:
             st["via"] = "schedule"
             st["end"] = gen_hhmm(rng, 0.0)
+        elif sm < 600 and rng.random() < 0.3:
+            st["start"] = "%d:%02d" % (sm // 60, sm % 60)        # "9:30": a clock time all the same (strptime takes it)
         if not days and rng.random() < 0.5:
             st["omit_days"] = True
         steps.append(st)
